@@ -451,10 +451,11 @@ fn classify_read(
 fn expected_zone_dump(m: &RefHosts) -> Vec<String> {
     let mut v = Vec::new();
     for (n, a) in &m.v4 {
-        v.push(format!("{n} 5 A {}", Ipv4Addr::from(*a)));
+        // (the TTL hosts data gets in a zone is the crate's public constant, not part of the statement)
+        v.push(format!("{n} {} A {}", dns_types::hosts::types::TTL, Ipv4Addr::from(*a)));
     }
     for (n, a) in &m.v6 {
-        v.push(format!("{n} 5 AAAA {}", Ipv6Addr::from(*a)));
+        v.push(format!("{n} {} AAAA {}", dns_types::hosts::types::TTL, Ipv6Addr::from(*a)));
     }
     v.sort();
     v
@@ -567,7 +568,7 @@ fn check_conversions(h: &Hosts, m: &RefHosts, lookups: &mut u64) -> Vec<(String,
                         QueryType::Record(RecordType::A),
                         m.v4.get(k)
                             .map(|a| {
-                                vec![rr(&name, RecordTypeWithData::A { address: Ipv4Addr::from(*a) }, 5)]
+                                vec![rr(&name, RecordTypeWithData::A { address: Ipv4Addr::from(*a) }, dns_types::hosts::types::TTL)]
                             })
                             .unwrap_or_default(),
                     )
@@ -576,7 +577,7 @@ fn check_conversions(h: &Hosts, m: &RefHosts, lookups: &mut u64) -> Vec<(String,
                         QueryType::Record(RecordType::AAAA),
                         m.v6.get(k)
                             .map(|a| {
-                                vec![rr(&name, RecordTypeWithData::AAAA { address: Ipv6Addr::from(*a) }, 5)]
+                                vec![rr(&name, RecordTypeWithData::AAAA { address: Ipv6Addr::from(*a) }, dns_types::hosts::types::TTL)]
                             })
                             .unwrap_or_default(),
                     )
